@@ -144,17 +144,24 @@ def coq_error_summary(out):
     return out[-600:]
 
 
-FORBIDDEN = re.compile(r"\b(Admitted|admit|Axiom|Parameter|Conjecture|Hypothesis|bypass_check)\b|Unset Guard|type-in-type|impredicative-set|Admit Obligations")
+FORBIDDEN = re.compile(r"\b(Admitted|admit|Axiom|Axioms|Parameter|Parameters|Conjecture|bypass_check)\b|Unset Guard|type-in-type|impredicative-set|Admit Obligations|Unset Positivity|Unset Universe")
+SECTION_ONLY = re.compile(r"^\s*(Variable|Variables|Hypothesis|Hypotheses|Context)\b")
 
 
 def forbidden_scan():
+    """Admitted/admit/Axiom/... anywhere; Variable/Hypothesis/Context outside a Section"""
     hits = []
-    for path in glob.glob(os.path.join(COQ, "theories/**/*.v"), recursive=True) + glob.glob(os.path.join(GEN, "*.v")):
+    for path in glob.glob(os.path.join(COQ, "theories/**/*.v"), recursive=True) + glob.glob(os.path.join(GEN, "*.v")) + \
+            glob.glob(os.path.join(COQ, "extraction/*.v")):
         txt = open(path).read()
-        txt = re.sub(r"\(\*.*?\*\)", "", txt, flags=re.S)
+        txt = re.sub(r"\(\*.*?\*\)", lambda m: "\n" * m.group(0).count("\n"), txt, flags=re.S)
+        depth = 0
         for k, line in enumerate(txt.splitlines(), 1):
-            if FORBIDDEN.search(line):
-                # `Variable`/`Hypothesis` inside a Section are fine; we never use Hypothesis at all
+            if re.match(r"^\s*Section\s+\w+\s*\.", line):
+                depth += 1
+            elif re.match(r"^\s*End\s+\w+\s*\.", line) and depth > 0:
+                depth -= 1
+            if FORBIDDEN.search(line) or (depth == 0 and SECTION_ONLY.search(line)):
                 hits.append("%s:%d: %s" % (os.path.relpath(path, ROOT), k, line.strip()[:100]))
     return hits
 
